@@ -25,6 +25,9 @@ pub enum St {
     Shuffle,
     GroupBy(i64),
     ReplicateOne,
+    /// merge with a finite stream of n elements (values 1_000_000 + i) that ends at once; the
+    /// flag puts the finite stream on the left of the merge
+    MergeFinite(u32, bool),
 }
 
 #[derive(Clone, Debug, serde::Serialize, serde::Deserialize, Hash)]
@@ -74,6 +77,11 @@ pub fn decode(choices: &[u16]) -> Case18 {
     } else {
         0
     };
+    if ch.flag(1, 3) {
+        // a two-input block one of whose inputs has already ended while the other stays open
+        let pos = ch.below(stages.len() + 1);
+        stages.insert(pos, St::MergeFinite(ch.range(0, 5) as u32, ch.flag(1, 2)));
+    }
     let n = 1 + ch.below(12);
     let d = adaptive.map_or(10, |a| a.1);
     let pauses = (0..n)
@@ -97,7 +105,7 @@ pub struct Outcome {
 
 fn boundaries(c: &Case18) -> usize {
     // every repartitioning stage is a block boundary, plus the one in front of collect_channel
-    c.stages.iter().filter(|s| !matches!(s, St::Map | St::SlowMap(_))).count() + 1
+    c.stages.iter().filter(|s| !matches!(s, St::Map | St::SlowMap(_))).count() + 1 // (a merge starts a new block too)
 }
 
 pub fn cap(c: &Case18) -> Duration {
@@ -121,7 +129,18 @@ pub fn run_case(c: &Case18, addr: AddrSeed) -> Result<Outcome, String> {
             None => BatchMode::fixed(c2.fixed as usize),
         };
         let mut s: DStream<i64> = erase(env.stream(src).batch_mode(mode));
+        // replication of the current block: One (sources, replication(One)) or Unlimited
+        let mut one = true;
         for st in &c2.stages {
+            match st {
+                St::Shuffle | St::GroupBy(_) => one = false,
+                St::ReplicateOne => one = true,
+                _ => {}
+            }
+            let was_one = match st {
+                St::MergeFinite(..) => one,
+                _ => true,
+            };
             s = match st {
                 St::Map => erase(s.map(|x: i64| x)),
                 St::SlowMap(us) => {
@@ -137,6 +156,17 @@ pub fn run_case(c: &Case18, addr: AddrSeed) -> Result<Outcome, String> {
                     erase(s.group_by(move |x: &i64| x.rem_euclid(k)).map(|(_, x): (&i64, i64)| x).drop_key())
                 }
                 St::ReplicateOne => erase(s.replication(Replication::One)),
+                St::MergeFinite(n, left) => {
+                    let n = *n as i64;
+                    let fin = erase(env.stream_iter((0..n).map(|i| 1_000_000 + i)).batch_mode(mode));
+                    // both inputs of a merge must have the same replication
+                    let fin = if was_one { fin } else { erase(fin.shuffle()) };
+                    if *left {
+                        erase(fin.merge(s))
+                    } else {
+                        erase(s.merge(fin))
+                    }
+                }
             };
         }
         let rx = s.collect_channel();
@@ -178,7 +208,7 @@ pub fn run_case(c: &Case18, addr: AddrSeed) -> Result<Outcome, String> {
             let adaptive = c3.adaptive.is_some();
             let deadline = Instant::now() + if adaptive { cap(&c3) } else { Duration::from_millis(300) };
             loop {
-                if arrivals.lock().unwrap().len() >= sent.len() || Instant::now() > deadline {
+                if arrivals.lock().unwrap().iter().filter(|a| a.0 < 1_000_000).count() >= sent.len() || Instant::now() > deadline {
                     break;
                 }
                 std::thread::sleep(Duration::from_millis(2));
@@ -242,8 +272,9 @@ pub fn judge(c: &Case18, o: &Outcome) -> Result<(), String> {
     if !o.disconnected {
         return Err("the sink channel was still connected 20 s after the source was closed".into());
     }
-    if o.total != n {
-        return Err(format!("{n} elements were handed to the source, {} reached the sink by the end of the job", o.total));
+    let finite: usize = c.stages.iter().map(|s| if let St::MergeFinite(k, _) = s { *k as usize } else { 0 }).sum();
+    if o.total != n + finite {
+        return Err(format!("{n} elements were handed to the source (and {finite} came from the finite input), {} reached the sink by the end of the job", o.total));
     }
     Ok(())
 }
@@ -268,6 +299,7 @@ fn run(ctx: &Ctx, _mode: &str) -> Report {
                 rep.class_if(c.layout.is_remote(), "config:multi_host");
                 rep.class(&format!("boundaries:{}", boundaries(&c)));
                 rep.class_if(c.burst > 0, "burst_then_silence_with_back_pressure");
+                rep.class_if(c.stages.iter().any(|s| matches!(s, St::MergeFinite(..))), "merge_with_ended_input");
                 if let Some((_, d)) = c.adaptive {
                     for l in o.latencies_ms.iter().flatten() {
                         lat.borrow_mut().push(*l / (d as f64 * boundaries(&c) as f64));
@@ -302,7 +334,7 @@ pub fn def() -> CheckDef {
     CheckDef {
         id: "C18",
         level: "exploration",
-        rule: "timing jobs ChannelSource -> 1-4 repartitioning boundaries (shuffle / group_by / replication(One), optional maps) -> collect_channel on local and multi-host layouts; batch mode adaptive(n in {1,4,64,1024}, d in {5,10,20,50} ms) or single/fixed; 1-12 inputs handed over one by one with pauses of 0, d/2 or 2d, optionally followed by a burst of 50-400 inputs 100 us apart in front of a slow (0.5-2 ms per element) map, then the source is kept open and idle; oracle: (a) adaptive: every element reaches the sink while the source is idle - a violation is declared only after max(3 s, 40 x boundaries x d) (measured latencies are reported relative to boundaries x d); (b) any mode: after the source is closed all elements have arrived when the job ends and the sink channel disconnects; the result-invariance part (c) is C01's metamorphic comparison across batch modes; non-trivial = adaptive, >= 2 boundaries and a pause >= d; distinct = hash of the case",
+        rule: "timing jobs ChannelSource -> 1-4 repartitioning boundaries (shuffle / group_by / replication(One), optional maps; in 1/3 of the cases a merge with a finite stream that has already ended) -> collect_channel on local and multi-host layouts; batch mode adaptive(n in {1,4,64,1024}, d in {5,10,20,50} ms) or single/fixed; 1-12 inputs handed over one by one with pauses of 0, d/2 or 2d, optionally followed by a burst of 50-400 inputs 100 us apart in front of a slow (0.5-2 ms per element) map, then the source is kept open and idle; oracle: (a) adaptive: every element reaches the sink while the source is idle - a violation is declared only after max(3 s, 40 x boundaries x d) (measured latencies are reported relative to boundaries x d); (b) any mode: after the source is closed all elements have arrived when the job ends and the sink channel disconnects; the result-invariance part (c) is C01's metamorphic comparison across batch modes; non-trivial = adaptive, >= 2 boundaries and a pause >= d; distinct = hash of the case",
         assumptions: &["'small multiple of the delay' is judged with a generous cap (seconds) so that scheduling noise on a loaded machine cannot raise an alarm; the measured ratio is reported as evidence only"],
         modes: |t| vec![("main", t.pick(8, 8))],
         run,
